@@ -6,6 +6,7 @@
 package starkcurve
 
 import (
+	"bytes"
 	"encoding/binary"
 	"errors"
 	"io"
@@ -215,10 +216,14 @@ func (dec *Decoder) Decode(v interface{}) (err error) {
 		if n == -1 {
 			return errors.New("stark-curve encoder: unsupported type")
 		}
-		err = binary.Read(dec.r, binary.BigEndian, t)
-		if err == nil {
-			dec.n += int64(n)
+		// read the fixed-size value ourselves so that a truncated value is counted
+		b := make([]byte, n)
+		read, err = io.ReadFull(dec.r, b)
+		dec.n += int64(read)
+		if err != nil {
+			return
 		}
+		err = binary.Read(bytes.NewReader(b), binary.BigEndian, t)
 		return
 	}
 }
